@@ -293,6 +293,10 @@ def run(ctx):
             ctx.require(sorted(qrows, key=str) == sorted(wantq, key=str), "R08.5", "cli-quit-escalation",
                         "quit(action): 1st request graceful (stop signal or SIGTERM, stop timeout), 2nd forced (ForceStop, 0), later ones abort; the action is returned", h.loc(h.line),
                         detail=str(qrows)[:400], fail="the CLI's quit closure no longer escalates graceful -> forced -> abort with the configured signal and timeout: %s" % str(qrows)[:300])
+            mk8 = ctx.anchor_fn("R08.5", "watchexec_cli::config::make_config")
+            kb = [[pathx.desc(a) for a in nd["a"]] for c, nd in thir.calls_in(thir.root(mk8)) if strip_generics(c).endswith("Config::keyboard_events")]
+            ctx.require(kb == [["config", "args.events.stdin_quit"]], "R08.5", "cli-stdin-quit-enables-keyboard", "--stdin-quit enables the keyboard source whose EOF the handler quits on",
+                        mk8.loc(mk8.line), detail=str(kb))
             eofc = [c for c in facts.children(h) if c.kind == "closure" and pathx.desc(thir.peel(thir.root(c))) == "slice::contains(e.tags, Keyboard{0: Eof})"]
             ctx.require(not bad8 and n_q >= 3 and len(eofc) == 1, "R08.5", "cli-quit-reasons", "the CLI handler quits exactly for: --once (debug), --stdin-quit with a keyboard EOF, "
                         "an unmapped interrupt/terminate", h.loc(h.line), detail="; ".join(bad8)[:400] + " eof-closures=%d" % len(eofc),
